@@ -22,7 +22,7 @@ pub fn plan(tier: Tier) -> Plan {
         checks.push(add_check::<Skewness>("C10", a, d, filter, false));
         checks.push(add_check::<Kurtosis>("C10", a, d, filter, false));
     }
-    let (n, k) = if q { (20_000u64, 3usize) } else { (100_000, 4) };
+    let (n, k) = if q { (70_000u64, 3usize) } else { (1_000_000, 3) };
     for a in ["small", "tail", "off9", "tiny"] {
         checks.push(super::longrun::lasso::<Moments4>("C10", a, k, 3, n, filter, true));
         checks.push(super::longrun::lasso::<Variance>("C10", a, k, 3, n, filter, false));
@@ -33,7 +33,7 @@ pub fn plan(tier: Tier) -> Plan {
         checks.push(super::longrun::doubling::<Variance>("C10", a, 3, 2, if q { 34 } else { 40 }, filter, false));
     }
     Plan {
-        rule: "large n: estimators merged with themselves up to 34 (40) times (n up to 2^41, beyond the stated 10^6) and cross merges; long lasso streams (every word of length <= 3 repeated to n = 20 000 / 1e5); AND every add-sequence over the alphabets small, dec, tail, off9, negoff, two13, ap (skew of both signs) up to the depth bound for Variance, Skewness, Kurtosis and define_moments! types of order 4, 6, 10; at every prefix (n from 0 upward, below-minimum sizes included) sample_variance, variance_of_mean, error, sample_skewness and sample_excess_kurtosis are judged against the textbook formulas evaluated on the exact central moments; WeightedMeanWithError's sample variance is judged in C08".into(),
+        rule: "large n: estimators merged with themselves up to 34 (40) times (n up to 2^41, beyond the stated 10^6) and cross merges; long lasso streams (every word of length <= 3 repeated to n = 70 000 / 1e6); AND every add-sequence over the alphabets small, dec, tail, off9, negoff, two13, ap (skew of both signs) up to the depth bound for Variance, Skewness, Kurtosis and define_moments! types of order 4, 6, 10; at every prefix (n from 0 upward, below-minimum sizes included) sample_variance, variance_of_mean, error, sample_skewness and sample_excess_kurtosis are judged against the textbook formulas evaluated on the exact central moments; WeightedMeanWithError's sample variance is judged in C08".into(),
         assumptions: common_assumptions(),
         checks,
     }
